@@ -278,6 +278,19 @@ class _Spellings(ast.NodeTransformer):
             ast.fix_missing_locations(new)
             self.n += 1
             return new
+        if isinstance(c, ast.Call) and any(k.arg == 'out' and isinstance(k.value, ast.Name) for k in c.keywords) and \
+                isinstance(c.func, ast.Attribute) and isinstance(c.func.value, ast.Name) and c.func.value.id in ('np', 'numpy'):
+            # np.f(a, b, out=x)  (statement)  ->  x[...] = np.f(a, b): the buffer is refilled with the result
+            outn = [k.value.id for k in c.keywords if k.arg == 'out'][0]
+            call2 = ast.Call(func=c.func, args=c.args, keywords=[k for k in c.keywords if k.arg != 'out'])
+            new = ast.Assign(targets=[ast.Subscript(value=ast.Name(id=outn, ctx=ast.Load()),
+                                                    slice=ast.Constant(value=Ellipsis), ctx=ast.Store())],
+                             value=call2, type_comment=None)
+            ast.copy_location(new, n)
+            ast.copy_location(call2, c)
+            ast.fix_missing_locations(new)
+            self.n += 1
+            return new
         if isinstance(c, ast.Call) and isinstance(c.func, ast.Attribute) and c.func.attr == 'fill' and \
                 isinstance(c.func.value, ast.Name) and len(c.args) == 1 and not c.keywords:
             new = ast.Assign(targets=[ast.Subscript(value=ast.Name(id=c.func.value.id, ctx=ast.Load()),
